@@ -1,7 +1,8 @@
 """C20 - The metrics exporter cannot be wedged by its clients.
 
 Coq: Exporter/AcceptLoop.v (small-step machine of exporter.rs's accept loop over
-abstract I/O results; `step` = code as it is, `step_fixed` = repaired loop),
+abstract I/O results; `step_fixed` = code as it is since the F19 repair b7381c9,
+`step_before_fix` = historic loop),
 Exporter/AcceptLemmas.v (proofs), Properties/C20.v (statements).
 
 Tie: the REAL statime-metrics-exporter binary (built from /repo's current
@@ -30,9 +31,9 @@ META = {
     "property_id": "C20",
     "technique": "Coq proof about a small-step machine of the exporter's accept loop over abstract I/O results (induction over connection-script lists of any length) + exhaustive behaviour-sequence correspondence against the real statime-metrics-exporter subprocess",
     "category": "proof",
-    "text": "Theorems of Properties/C20.v: C20_main (for every finite list of connection scripts, outside the three recorded failure patterns the model tied to the binary satisfies the oracle ok_C20), C20_serves_next (guarded by `benign`, lists of any length), C20_eof_spins / C20_oversize_spins / C20_reset_exits (refutations on today's code, for all n), C20_serves_next_fixed and C20_fixed_main (the repaired loop satisfies the unrestricted statement). The model is tied to the code by running the real binary under all client/observation-socket behaviour sequences up to length 2 (3-4 sampled) and comparing outcome classes in Coq.",
+    "text": "Theorems of Properties/C20.v: C20_main (for EVERY finite list of connection scripts - any chunking, premature close, oversize, non-GET, reset, write error, any handler outcome - the model tied to the binary satisfies the oracle ok_C20, no exemption), C20_serves_next (unrestricted: after any list of scripts the follow-up GET is being answered within the step budget, the process never exits), C20_accept_error_exits; historic C20_before_fix_* (spin / exit refutations of the loop before commit b7381c9, for all n). The model is tied to the code by running the real binary under all client/observation-socket behaviour sequences up to length 2 (thorough: 3; longer ones sampled) and comparing outcome classes in Coq.",
     "design_ref": "DESIGN.md section 6 (C20), section 7 (F19)",
-    "level_note": "Trusted: Coq 8.16.1 kernel + vm_compute; the hand-written model of exporter.rs (validated by correspondence, not verified); the mapping from concrete client behaviours to abstract read/handler/write results in checks/c20.py; tokio, Linux TCP/Unix-socket semantics and timing (observed, with deadlines); no axioms. F19 (kf 1-3) are recorded known findings.",
+    "level_note": "Trusted: Coq 8.16.1 kernel + vm_compute; the hand-written model of exporter.rs (validated by correspondence, not verified); the mapping from concrete client behaviours to abstract read/handler/write results in checks/c20.py; tokio, Linux TCP/Unix-socket semantics and timing (observed, with deadlines); no axioms. F19 is repaired (b7381c9); no known finding is excused.",
 }
 
 GET = D.GET_REQ
@@ -228,7 +229,7 @@ def run_sequence(args):
 
 def sequences(tier, seed):
     """length 0..2 exhaustively; quick: 40 + 30 sampled of length 3 / 4;
-    thorough: length 3 exhaustively + 3000 sampled of length 4."""
+    thorough: length 3 exhaustively + 2000 sampled of length 4."""
     seqs = [()]
     seqs += [(a,) for a in SYMBOLS]
     seqs += list(itertools.product(SYMBOLS, repeat=2))
@@ -239,7 +240,7 @@ def sequences(tier, seed):
                 seqs.append(tuple(rng.choice(SYMBOLS) for _ in range(k)))
     else:
         seqs += list(itertools.product(SYMBOLS, repeat=3))
-        for _ in range(3000):
+        for _ in range(2000):
             seqs.append(tuple(rng.choice(SYMBOLS) for _ in range(4)))
     return seqs
 
